@@ -13,6 +13,9 @@ insights/parsr/query/boolean.py (the predicate algebra with its two evaluators).
   query/__init__.py:915-935    `selectNodes`, `rootsOf`, `select` = select(query, nodes, deep, roots)  (with fix 9796838)
   query/__init__.py:231-240    `Node.root` (Entry.root: furthest ancestor, None for a parentless node)
   query/__init__.py:266-283, 408-412, 628-630, 691-695   Entry/Result .select/.find/__getitem__
+  query/__init__.py:285-318, 632-668                     Entry/Result .where with an entry query / (name, value)
+  boolean.py:47-55, query/__init__.py:709-716            `BTerm`, `letB`, `runLets`: combinations are VALUES —
+                               `b & c`, `b | c`, `~b` build a NEW object from operands that were built before
 
 A Python `Entry` is an object with a parent pointer.  The model keeps the pointer chain
 explicitly: a `Node` is a tree together with the list of its ancestors (nearest first), so that
@@ -20,7 +23,7 @@ explicitly: a `Node` is a tree together with the list of its ancestors (nearest 
 
 Not modelled: Entry names / attributes other than None, int and str (bool, float); `isin`,
 `matches`; n-ary `All(...)`/`Any(...)` built by hand (the operators `&`, `|` only build binary
-ones); int/slice indexing; `where`, `choose`, `nth`, `upto`; opaque callables are a parameter
+ones); int/slice indexing; `where` with a bare callable, `choose`, `nth`, `upto`; opaque callables are a parameter
 `ρ : Env` (the theorems hold for every ρ; the driver instantiates a concrete family).
 -/
 namespace IV.Query
@@ -334,6 +337,49 @@ def entryGetitem (ρ : Env) (e : Node) (q : Query) : List Node := e.kids.filter 
 /-- `Result.__getitem__(query)` -/
 def resultGetitem (ρ : Env) (children : List Node) (q : Query) : List Node :=
   (grandchildren children).filter (q.eval ρ)
+
+/-- `Entry.where(q)` for an entry query `q` (`where(name, value)` is `where(child_query(name, value))`):
+the entry's children if the entry itself satisfies `q`, else nothing -/
+def entryWhere (ρ : Env) (e : Node) (q : EQ) : List Node := if q.eval ρ e then e.kids else []
+
+/-- `Result.where(q)`: the result's own children that satisfy `q` -/
+def resultWhere (ρ : Env) (children : List Node) (q : EQ) : List Node := children.filter (q.eval ρ)
+
+/-! ### combinations are values
+
+A program builds combinations one after the other; an operand may be a combination that was
+built (and named) before.  `BTerm` is what is written, `resolve` looks the names up, `letB`
+appends the new combination: nothing else happens to the environment. -/
+
+inductive BTerm where
+  | tt
+  | ff
+  | prim (op : Op) (arg : Val)
+  | primI (op : Op) (arg : Str)
+  | opq (k : Nat) (caseless : Bool)
+  | and (a b : BTerm)          -- a & b
+  | or (a b : BTerm)           -- a | b
+  | not (a : BTerm)            -- ~a
+  | ref (i : Nat)              -- the i-th combination built so far
+deriving Repr
+
+def BTerm.resolve (env : List BExp) : BTerm → Option BExp
+  | .tt => some .tt
+  | .ff => some .ff
+  | .prim op arg => some (.prim op arg)
+  | .primI op arg => some (.primI op arg)
+  | .opq k c => some (.opq k c)
+  | .and a b => do let x ← a.resolve env; let y ← b.resolve env; pure (.and x y)
+  | .or a b => do let x ← a.resolve env; let y ← b.resolve env; pure (.or x y)
+  | .not a => do let x ← a.resolve env; pure (.not x)
+  | .ref i => env[i]?
+
+/-- `x_n = <term>` -/
+def letB (env : List BExp) (t : BTerm) : Option (List BExp) := (t.resolve env).map (fun b => env ++ [b])
+
+def runLets : List BExp → List BTerm → Option (List BExp)
+  | env, [] => some env
+  | env, t :: ts => (letB env t).bind (fun env' => runLets env' ts)
 
 /-- a parentless Entry (a document top, or a node handed to the module-level `select`) -/
 def top (t : Tree) : Node := ⟨[], t⟩
